@@ -108,6 +108,7 @@ def check_replica_params(ctx, gp):
 
 # ------------------------------------------------------------------------------------------------ S5 oracle
 def oracle_poling(ctx, obs, cases):
+    zero_idx = {}
     for o in obs:
         k = o.get("kind")
         if k == "harness_crash":
@@ -128,12 +129,15 @@ def oracle_poling(ctx, obs, cases):
                     ctx.violation("S5", f"config \"auto\" poling period {per!r} m: sign / bound rule broken (L = {L!r}, dkz0 = {z0!r})",
                                   {"kind": "poling_sign_bound", "route": "config"}, describe(o))
                 if abs(z) * L / 2 >= 1e-3:
-                    ctx.violation("S5", f"config \"auto\" poling period {per!r} m leaves |dkz| L/2 = {abs(z)*L/2:.3e}",
-                                  {"kind": "poling_residual", "route": "config"}, describe(o))
+                    zi = zero_idx.get(o["i"], False)
+                    ctx.violation("S5", f"config \"auto\" poling period {per!r} m leaves |dkz| L/2 = {abs(z)*L/2:.3e}"
+                                  + (" (index_along returned 0 for the idler at some evaluated periods: property C02)" if zi else ""),
+                                  {"kind": "poling_residual", "route": "config", "zero_index_during_search": zi}, describe(o))
             continue
         if k != "poling":
             continue
         i = o["input"]
+        zero_idx[o["i"]] = bool(o.get("zero_index_during_search"))
         if not idler_in_window(i):
             ctx.count("skipped: idler wavelength outside the crystal's window")
             continue
@@ -182,11 +186,13 @@ def oracle_poling(ctx, obs, cases):
             else:
                 val = abs(fl(res["dkz"])) * L / 2
                 above = seed > L
+                zi = bool(o.get("zero_index_during_search"))
                 if not val < 1e-3:
                     ctx.violation("S5", f"optimum_poling_period returned {p!r} m but |dkz| L/2 = {val:.3e} >= 1e-3 "
                                   f"({i['crystal']} {i['pm_type']}, L = {L*1e3:.4f} mm, exact collinear period 2 pi/|dkz0| = {seed*1e3:.6f} mm"
-                                  + (", which exceeds L: no period <= L phase-matches, an error was due" if above else "") + ")",
-                                  {"kind": "poling_residual", "root_above_length": above}, dict(rep, residual=val))
+                                  + (", which exceeds L: no period <= L phase-matches, an error was due" if above else "")
+                                  + ("; index_along returned 0 for the idler at some evaluated periods (imaginary index next to an optic axis: property C02)" if zi else "") + ")",
+                                  {"kind": "poling_residual", "root_above_length": above, "zero_index_during_search": zi}, dict(rep, residual=val))
                 # contract of C04_residual_partial: the simplex's final cost < 2e-3 / L
                 if rx["ok"] and o["replica"]["table"]:
                     costs = {x: c for x, c in o["replica"]["table"]}
